@@ -76,9 +76,11 @@ def tieMargin [DecidableEq K] (vects : M3 K) (px py pz : Bool) (p0 p1 : V3 K) : 
 
 /-- what a caller may pass as `pos_0` / `pos_1`. -/
 inductive Sel (K : Type) where
-  | idx (i : Int)                                   -- python int
+  | idx (i : Int)                                   -- python int / numpy integer scalar
   | slice (start stop : Option Int) (step : Option Int)   -- python slice
-  | list (l : List Int)                             -- list / int array used as an index
+  | list (l : List Int)                             -- list / 1-D int array used as an index
+  | tuple (l : List Int)                            -- python tuple of ints: a multi-axis index
+  | ipos (rows : List (Int × Int × Int))            -- (k,3) array of integer dtype (integer-valued positions)
   | pos (l : List (V3 K))                           -- explicit float position(s)
 
 /-- `slice(start, stop, step).indices(n)` expanded (CPython `PySlice_AdjustIndices`);
@@ -107,7 +109,9 @@ def wrapIndex (n : Nat) (i : Int) : Option Nat :=
   else none
 
 /-- `try: self.atoms.pos[sel]  except: np.asarray(sel)` followed by the wrapper's own checks.
-    Errors: `type` — a 0-d value reaches `dvect` (out-of-range int, bad slice);
+    Errors: `type` — a 0-d value reaches `dvect` (out-of-range int, bad slice, a 2-tuple that
+    addresses one coordinate); `value` — a 3-d array reaches `dvect` (an integer (k,3) array whose
+    entries are all usable as indices is taken as a fancy index: shape (k,3,3));
     `undefined` — the real code would read out of bounds (never generated by the harness). -/
 def select (atoms : List (V3 K)) : Sel K → Except String (List (V3 K))
   | .idx i =>
@@ -128,23 +132,52 @@ def select (atoms : List (V3 K)) : Sel K → Except String (List (V3 K))
       match l with
       | [a, b, c] => .ok [⟨(a : K), (b : K), (c : K)⟩]
       | _ => .error "undefined"
+  | .tuple l =>
+    match l with
+    | [i] =>                      -- `pos[(i,)]` is `pos[i]`
+      match wrapIndex atoms.length i with
+      | some k => match atoms[k]? with
+        | some p => .ok [p]
+        | none => .error "undefined"
+      | none => .error "undefined"
+    | [i, j] =>                   -- `pos[i, j]`: one coordinate, a 0-d value
+      match wrapIndex atoms.length i, wrapIndex 3 j with
+      | some _, some _ => .error "type"
+      | _, _ => .error "undefined"
+    | [a, b, c] => .ok [⟨(a : K), (b : K), (c : K)⟩]   -- too many indices -> `np.asarray`: ONE position
+    | _ => .error "undefined"
+  | .ipos rows =>
+    let flat := rows.flatMap fun r => [r.1, r.2.1, r.2.2]
+    match flat.mapM (wrapIndex atoms.length) with
+    | some _ => .error "value"    -- a valid fancy index: (k,3,3) reaches the wrapper
+    | none => .ok (rows.map fun r => ⟨(r.1 : K), (r.2.1 : K), (r.2.2 : K)⟩)
   | .pos l => .ok l
+
+/-- both arguments are converted before the wrapper looks at either; the wrapper then rejects a
+    0-d `pos_0`, a 0-d `pos_1` (TypeError) before anything that depends on the shapes (ValueError). -/
+def selectBoth (atoms : List (V3 K)) (s0 s1 : Sel K) : Except String (List (V3 K) × List (V3 K)) :=
+  match select atoms s0, select atoms s1 with
+  | .ok a, .ok b => .ok (a, b)
+  | .error e0, .ok _ => .error e0
+  | .ok _, .error e1 => .error e1
+  | .error e0, .error e1 =>
+    if e0 = "undefined" ∨ e1 = "undefined" then .error "undefined"
+    else if e0 = "type" ∨ e1 = "type" then .error "type"
+    else .error e0
 
 /-- `(squeezed?, values)`: `if len(vects) == 1: return vects[0]`. -/
 def squeeze {α : Type} (l : List α) : Bool × List α := (l.length == 1, l)
 
 def sysDvect (atoms : List (V3 K)) (vects : M3 K) (px py pz : Bool) (s0 s1 : Sel K) :
     Except String (Bool × List (V3 K)) := do
-  let a ← select atoms s0
-  let b ← select atoms s1
+  let (a, b) ← selectBoth atoms s0 s1
   match dvectArr vects px py pz a b with
   | some r => pure (squeeze r)
   | none => throw "value"
 
 def sysDmag2 (atoms : List (V3 K)) (vects : M3 K) (px py pz : Bool) (s0 s1 : Sel K) :
     Except String (Bool × List K) := do
-  let a ← select atoms s0
-  let b ← select atoms s1
+  let (a, b) ← selectBoth atoms s0 s1
   match dmag2Arr vects px py pz a b with
   | some r => pure (squeeze r)
   | none => throw "value"
@@ -179,6 +212,148 @@ def displacement (s0 s1 : Sys K) (boxReference : String) : Except String (List (
   else match refBox s0 s1 boxReference with
     | some rb => .ok (List.zipWith (dispWith rb) s0.pos s1.pos)
     | none => .error "value"
+
+/-! ### objects with state: `Box` and `System` are mutable, several Systems may hold the SAME Box
+
+  `System(box=B)` keeps the object `B` itself, `System.box` hands it out, `Box.vects = …`,
+  `Box.origin = …`, `Box.set(…)` and `System.box_set(…)` change it in place; `System.pbc` hands
+  out the live flag array (`system.pbc[k] = flag` edits it in place), `System.atoms.pos` the live
+  position array.  Every query (`atomman.dvect/dmag` with a Box object, `System.dvect/dmag`,
+  `atomman.displacement`) reads the values the objects hold *at the time of the call*. -/
+
+/-- a System: which Box object it holds (index into the heap of boxes), its flags, its positions. -/
+structure SysSt (K : Type) where
+  box : Nat
+  px : Bool
+  py : Bool
+  pz : Bool
+  pos : List (V3 K)
+
+/-- the heap: Box objects and System objects in creation order. -/
+structure World (K : Type) where
+  boxes : List (Box K)
+  systems : List (SysSt K)
+
+/-- state-changing operations. -/
+inductive Op (K : Type) where
+  | newBox (v : M3 K) (o : V3 K)                               -- `Box(vects=v, origin=o)`
+  | newSys (box : Nat) (px py pz : Bool) (pos : List (V3 K))   -- `System(atoms, box=B, pbc)`
+  | boxVects (b : Nat) (v : M3 K)                              -- `B.vects = v` (origin kept)
+  | boxOrigin (b : Nat) (o : V3 K)                             -- `B.origin = o` / `B.set(origin=o)`
+  | boxSet (b : Nat) (v : M3 K) (o : V3 K)                     -- `B.set(vects=v, origin=o)` and the other complete forms
+  | sysBoxSet (s : Nat) (v : M3 K) (o : V3 K) (scale : Bool)   -- `S.box_set(vects=v, origin=o, scale=…)`
+  | pbcSet (s : Nat) (px py pz : Bool)                         -- `S.pbc = (…)`
+  | pbcEdit (s : Nat) (axis : Nat) (flag : Bool)               -- `S.pbc[axis] = flag`
+  | posEdit (s : Nat) (i : Nat) (p : V3 K)                     -- `S.atoms.pos[i] = p`
+  | posSet (s : Nat) (pos : List (V3 K))                       -- `S.atoms.pos[:] = …` (same number of atoms)
+
+/-- replace entry `i` (`none` if there is no such entry). -/
+def setAt {α : Type} (l : List α) (i : Nat) (a : α) : Option (List α) :=
+  if i < l.length then some (l.set i a) else none
+
+def SysSt.setFlag (st : SysSt K) (axis : Nat) (flag : Bool) : Option (SysSt K) :=
+  match axis with
+  | 0 => some { st with px := flag }
+  | 1 => some { st with py := flag }
+  | 2 => some { st with pz := flag }
+  | _ => none
+
+namespace World
+
+def empty : World K := ⟨[], []⟩
+
+/-- one operation; `none` when it names an object / atom / axis that does not exist. -/
+def step [Div K] (w : World K) : Op K → Option (World K)
+  | .newBox v o => some { w with boxes := w.boxes ++ [⟨v, o⟩] }
+  | .newSys b px py pz pos =>
+    if b < w.boxes.length then some { w with systems := w.systems ++ [⟨b, px, py, pz, pos⟩] } else none
+  | .boxVects b v => do
+    let old ← w.boxes[b]?
+    let bs ← setAt w.boxes b ⟨v, old.origin⟩
+    pure { w with boxes := bs }
+  | .boxOrigin b o => do
+    let old ← w.boxes[b]?
+    let bs ← setAt w.boxes b ⟨old.vects, o⟩
+    pure { w with boxes := bs }
+  | .boxSet b v o => do
+    let bs ← setAt w.boxes b ⟨v, o⟩
+    pure { w with boxes := bs }
+  | .sysBoxSet s v o scale => do
+    let st ← w.systems[s]?
+    let old ← w.boxes[st.box]?
+    let bs ← setAt w.boxes st.box ⟨v, o⟩
+    if scale then
+      -- only THIS system's positions follow the cell; others holding the same Box keep theirs
+      let pos := st.pos.map fun p => Box.relToCart ⟨v, o⟩ (old.cartToRel p)
+      let ss ← setAt w.systems s { st with pos := pos }
+      pure ⟨bs, ss⟩
+    else pure { w with boxes := bs }
+  | .pbcSet s px py pz => do
+    let st ← w.systems[s]?
+    let ss ← setAt w.systems s { st with px := px, py := py, pz := pz }
+    pure { w with systems := ss }
+  | .pbcEdit s axis flag => do
+    let st ← w.systems[s]?
+    let st' ← st.setFlag axis flag
+    let ss ← setAt w.systems s st'
+    pure { w with systems := ss }
+  | .posEdit s i p => do
+    let st ← w.systems[s]?
+    let ps ← setAt st.pos i p
+    let ss ← setAt w.systems s { st with pos := ps }
+    pure { w with systems := ss }
+  | .posSet s pos => do
+    let st ← w.systems[s]?
+    if pos.length ≠ st.pos.length then none else
+    let ss ← setAt w.systems s { st with pos := pos }
+    pure { w with systems := ss }
+
+/-- a whole history. -/
+def run [Div K] (w : World K) : List (Op K) → Option (World K)
+  | [] => some w
+  | op :: ops => (w.step op).bind fun w' => run w' ops
+
+/-- what `displacement` / `System.dvect` read of system `s` right now. -/
+def sysView (w : World K) (s : Nat) : Option (Sys K) := do
+  let st ← w.systems[s]?
+  let b ← w.boxes[st.box]?
+  pure ⟨b.vects, st.px, st.py, st.pz, st.pos⟩
+
+/-- `atomman.dvect(pos0, pos1, B, pbc)` with the Box object `B`. -/
+def arrDvect (w : World K) (b : Nat) (px py pz : Bool) (pos0 pos1 : List (V3 K)) : Except String (List (V3 K)) :=
+  match w.boxes[b]? with
+  | none => .error "op"
+  | some bx => match dvectArr bx.vects px py pz pos0 pos1 with
+    | some r => .ok r
+    | none => .error "value"
+
+/-- `atomman.dmag(pos0, pos1, B, pbc)`, squared. -/
+def arrDmag2 (w : World K) (b : Nat) (px py pz : Bool) (pos0 pos1 : List (V3 K)) : Except String (List K) :=
+  match w.boxes[b]? with
+  | none => .error "op"
+  | some bx => match dmag2Arr bx.vects px py pz pos0 pos1 with
+    | some r => .ok r
+    | none => .error "value"
+
+/-- `S.dvect(sel0, sel1)`. -/
+def sysDvect (w : World K) (s : Nat) (s0 s1 : Sel K) : Except String (Bool × List (V3 K)) :=
+  match w.sysView s with
+  | none => .error "op"
+  | some v => C02.sysDvect v.pos v.vects v.px v.py v.pz s0 s1
+
+/-- `S.dmag(sel0, sel1)`, squared. -/
+def sysDmag2 (w : World K) (s : Nat) (s0 s1 : Sel K) : Except String (Bool × List K) :=
+  match w.sysView s with
+  | none => .error "op"
+  | some v => C02.sysDmag2 v.pos v.vects v.px v.py v.pz s0 s1
+
+/-- `atomman.displacement(S0, S1, box_reference)`. -/
+def disp (w : World K) (s0 s1 : Nat) (ref : String) : Except String (List (V3 K)) :=
+  match w.sysView s0, w.sysView s1 with
+  | some a, some b => displacement a b ref
+  | _, _ => .error "op"
+
+end World
 
 end
 end Atomman.C02
